@@ -115,6 +115,31 @@ CHECKS = {
    design_ref='DESIGN.md section 6 (C13)',
    note='Trusted: TLC, fakepg (120-line transactional fake), oracle in PgTx.tla. One known finding (sticky multi) excused only for operations after an explicit transaction has ended on the handle.',
    technique='TLA+ spec (PgTx.tla) + TLC exhaustive fault enumeration + trace validation of the real handle over a fake server'),
+ 'C14': dict(
+   category='model_checking',
+   text='Bytecode.tla defines Enc/Dec over byte sequences (32-bit integers as byte 4-tuples); TLC checks RoundTrip, ProgramRoundTrip, MinimalWidth and the adjacency of the four '
+        'integer width classes for all 12 opcodes x symbol lengths {1,2,254,255} x boundary integers x both modes; every enumerated instruction and generated whole programs go through '
+        'vm.NewLine, the assembler (asm.Parse of the printed source), vm.Parse* and ParseHandler.ToString, and TLC compares bytes, decoded records, consumed lengths and listing with the spec; '
+        'a Go sweep runs every uint32 (thorough) through the assembler\'s integer writer and the VM\'s integer reader against the TLC-checked class table.',
+   design_ref='DESIGN.md section 6 (C14)',
+   note='Trusted: TLC, harness parsing of the listing, verif accessor asm.VerifWriteSize. Interior of the width classes: Go sweep against the table, not TLC per value.',
+   technique='TLA+ spec (Bytecode.tla) + TLC model checking + trace validation of all real encoders/decoders + exhaustive integer sweep'),
+ 'C15': dict(
+   category='model_checking',
+   text='WellFormedProgram / DecAll of Bytecode.tla give the verdict for any byte string; TLC enumerates all strings up to length 4/5 over a branch-covering alphabet, checks verdict consistency, '
+        'and each string - plus every truncation and six corruptions per byte of generated valid programs - is given to ParseAll, ToString and Vm.Run under recover(); TLC recomputes the expected verdict per '
+        'recorded line: no panic, no success for malformed input, valid programs accepted, the VM refuses a malformed first instruction.',
+   design_ref='DESIGN.md section 6 (C15)',
+   note='Trusted: TLC, recorder. No coverage-guided fuzzing (outside this technique family). NOOP handled as a named deviation.',
+   technique='TLA+ spec + TLC exhaustive small strings + spec-judged mutation of valid programs on the real decoders'),
+ 'C16': dict(
+   category='model_checking',
+   text='Asm.tla translates abstract source lines to instruction records incl. the documented batch expansion; TLC enumerates all programs of up to 2/3 lines over every opcode, the selector '
+        'alphabet, width-boundary sizes and all subsets/orders of batch lines, checks the expansion shape, and every program (also with comments / blank lines, and random programs up to 30 lines) '
+        'is assembled by the real asm.Parse; the bytes are decoded by the harness\'s own decoder and TLC compares them with Translate(src).',
+   design_ref='DESIGN.md section 6 (C16)',
+   note='Trusted: TLC, harness printer and decoder. One known finding (numeric-looking selectors are altered) excused only for sources containing such a selector.',
+   technique='TLA+ spec (Asm.tla) + TLC enumeration + trace validation of the real assembler'),
 }
 
 NOT_YET = 'check not built yet in this round (planned: DESIGN.md section 6); not claimed until its machinery exists'
